@@ -9,6 +9,7 @@ J=8; [ "${1:-}" = "-j" ] && { J=$2; shift 2; }
 FILTER=${1:-.}
 cd /verif
 work=$(mktemp -d /tmp/verif-selftest.XXXXXX); trap 'rm -rf "$work"' EXIT
+cp bin/connectlint "$work/connectlint"; export CONNECTLINT="$work/connectlint"   # a rebuild during the run must not mix binaries
 : > "$work/jobs"
 while read -r name props; do
   case "$name" in \#*|"") continue;; esac
